@@ -332,6 +332,10 @@ m("C03-r9", "C03", "libwallet/src/internal/tx.rs", "\t\tif t.tx_type == TxLogEnt
 m("C05-r9", "C05", "src/cmd/wallet_args.rs", "pub fn parse_cancel_args(args: &ArgMatches) -> Result<command::CancelArgs, ParseError> {\n\tlet mut tx_id_string = \"\";\n\tlet tx_id = match args.value_of(\"id\") {\n\t\tNone => None,\n\t\tSome(tx) => Some(parse_u32(tx, \"id\")?),", "pub fn parse_cancel_args(args: &ArgMatches) -> Result<command::CancelArgs, ParseError> {\n\tlet mut tx_id_string = \"\";\n\tlet tx_id = match args.value_of(\"id\") {\n\t\tNone => None,\n\t\tSome(tx) => Some(parse_u64(tx, \"id\")? as u32),", "C05.R9")
 m("C19-r7", "C19", "src/cmd/wallet_args.rs", "pub fn parse_txs_args(args: &ArgMatches) -> Result<command::TxsArgs, ParseError> {\n\tlet tx_id = match args.value_of(\"id\") {\n\t\tNone => None,\n\t\tSome(tx) => Some(parse_u32(tx, \"id\")?),", "pub fn parse_txs_args(args: &ArgMatches) -> Result<command::TxsArgs, ParseError> {\n\tlet tx_id = match args.value_of(\"id\") {\n\t\tNone => None,\n\t\tSome(tx) => Some(parse_u64(tx, \"id\")? as u32),", "C19.R7")
 
+m("C09-r6a", "C09", "libwallet/src/slate_versions/ser.rs", "\t\tif !is_hex(&string) {\n\t\t\treturn Err(Error::custom(\"invalid hex in blinding factor\"));\n\t\t}\n", "", "C09.R6")
+m("C09-r6b", "C09", "api/src/types.rs", "\t\tif !self.nonce.is_ascii() {\n\t\t\treturn Err(Error::APIEncryption(\n\t\t\t\t\"EncryptedBody Dec: Invalid Nonce\".to_string(),\n\t\t\t));\n\t\t}\n", "", "C09.R6")
+m("C09-r6c", "C09", "libwallet/src/slate_versions/v4.rs", "\t\tdeserialize_with = \"ser::blind_from_hex\"", "\t\tdeserialize_with = \"secp_ser::blind_from_hex\"", "C09.R6")
+
 
 def for_property(prop):
     return [x for x in M if x["property"] == prop]
